@@ -7,7 +7,7 @@ import re
 import vlib
 
 
-def run_jobs(ctx, drv, test, jobs, env=None, timeout=900, tag="jobs"):
+def run_jobs(ctx, drv, test, jobs, env=None, timeout=900, tag="jobs", max_kills=6):
     """Execute jobs (list of dicts with 'id' == index) and return a list of results aligned
     with jobs.  A job that kills the process (watchdog: hang / oom, or a crash outside
     recover) gets {'killed': reason, 'log': ...}; the run resumes after it."""
@@ -58,8 +58,13 @@ def run_jobs(ctx, drv, test, jobs, env=None, timeout=900, tag="jobs"):
         results[nxt] = {"id": nxt, "killed": reason, "log": log[-1500:]}
         skip = nxt + 1
         restarts += 1
-        if restarts > 200:
-            raise vlib.Infra("more than 200 driver restarts")
+        if restarts >= max_kills:
+            # enough dead processes to report; the rest of the jobs is not run
+            for i in range(skip, len(jobs)):
+                if results[i] is None:
+                    results[i] = {"id": i, "skipped": True}
+            ctx.extra["jobs_not_run_after_%d_kills" % max_kills] = sum(1 for r in results if r.get("skipped"))
+            break
         if to and not m:
             raise vlib.Infra("driver timed out without a watchdog report:\n" + log[-2000:])
     missing = [i for i, r in enumerate(results) if r is None]
